@@ -429,7 +429,8 @@ func lkRun(t *testing.T, r *vfRand, c *lkCase, public bool, hooks ...*lkHooks) *
 			if len(o.sends) == 0 {
 				o.localFirst = hk.localHeld(d)
 			}
-			o.sends = append(o.sends, lkSend{to: call.p, ok: hk.sendOK(d, call)})
+			// a message handed to the network with an already cancelled context is not delivered
+			o.sends = append(o.sends, lkSend{to: call.p, ok: hk.sendOK(d, call) && call.ctx.Err() == nil})
 			return true
 		}
 		return false
